@@ -224,6 +224,13 @@ def handle (op : String) (args : List Sexp) : R Sexp := do
     | .ok r => pure (.list [.atom "ok", encParams r.params,
         .list [.atom "key", .atom (algName r.key.alg), ofBytes r.key.raw]])
     | .error e => pure (.list [.atom "err", .atom (errName e)])
+  | "alg-from-oid", [b, .list arcs] => do
+    let b ← match ← b.asAtom with
+      | "ring" => pure Backend.ring | "aws" => pure Backend.aws | s => throw s!"bad backend {s}"
+    let oid ← arcs.mapM Sexp.asNat
+    match algFromOid b oid with
+    | some a => pure (.list [.atom "ok", .atom (algName a)])
+    | none => pure (.list [.atom "err", .atom "UnsupportedSignatureAlgorithm"])
   | "key-export", [b, fmt, kty] => do
     let b ← match ← b.asAtom with
       | "ring" => pure Backend.ring | "aws" => pure Backend.aws | s => throw s!"bad backend {s}"
